@@ -210,8 +210,12 @@ def subchecks(tier, seed):
     tr = training_sets(quick)
     fs = FORMULAS
     return [
-        Sub("row-locality", drv_rows, {"formulas": fs, "trainings": tr, "outputs": ["pandas"] if quick else ["pandas", "sparse"], "L": 2 if quick else 3},
-            shard_depth=2, bounds={"formulas": len(fs), "training_sets": len(tr), "max_selection_length": 2 if quick else 3, "pool_rows": 5}),
+        Sub("row-locality", drv_rows, {"formulas": fs, "trainings": tr if quick else tr[:12], "outputs": ["pandas"], "L": 2 if quick else 3},
+            shard_depth=2, bounds={"formulas": len(fs), "training_sets": len(tr) if quick else 12, "max_selection_length": 2 if quick else 3, "pool_rows": 5}),
+    ] + ([] if quick else [
+        Sub("row-locality-all-trainings", drv_rows, {"formulas": fs, "trainings": tr, "outputs": ["pandas", "sparse"], "L": 1},
+            shard_depth=2, bounds={"formulas": len(fs), "training_sets": len(tr), "max_selection_length": 1, "outputs": ["pandas", "sparse"]}),
+    ]) + [
         Sub("row-locality-categorical-dtype", drv_rows, {"formulas": [f for f in fs if "A" in f], "trainings": tr[:2] if quick else tr[:12], "outputs": ["pandas"],
                                                          "L": 2, "adtypes": ["category-training-levels", "category-present-levels-only", "category-reversed-order"]},
             shard_depth=2, bounds={"formulas": "those using A", "followup_dtype_of_A": ["category (training levels)", "category (present levels only)", "category (reversed order)"],
